@@ -645,8 +645,8 @@ func (c *handlerCtx) handleReply() {
 		c.callCmd.result = c.input.Body()
 		c.stat = c.callCmd.stat
 		verifGate("reply.done", c.sess)
-		c.callCmd.done()
 		c.callCmd.cost = time.Duration(c.sess.timeNow() - c.callCmd.start)
+		c.callCmd.done()
 		if enablePrintRunLog() {
 			c.sess.printRunLog(c.RealIP(), c.callCmd.cost, c.input, c.callCmd.output, typeCallLaunch)
 		}
